@@ -214,7 +214,7 @@ def replay(case):
 
 def run(ctx):
     ns = 5 if ctx.thorough else 3
-    cases = [{"k": "wallet", "seed": s, "net": net, "account": a} for s in range(ns) for net in ("main", "test") for a in (0, 1, H - 2)]
+    cases = [{"k": "wallet", "seed": s, "net": net, "account": a} for s in range(ns) for net in ("main", "test") for a in (0, 1, H - 2, 84, 49)]
     agg = ctx.product("full-wallet-outputs", cases, execute, chunk=1)
     tagged = sum(agg["x"])
     exports = [[], [H + 44, H + 1, H], [0]]
